@@ -33,9 +33,9 @@ META = dict(
 
 def run(ctx):
     P = ctx.prog
-    # R4: rolling back over a special token must drop exactly the bytes it pushed (\xFF "[" id "]"): token_len (shared, C16-R7)
+    # R5: rolling back over a special token must drop exactly the bytes it pushed (\xFF "[" id "]"): token_len (shared, C16-R7)
     from . import c16 as _c16
-    _c16.token_len_rule(ctx, "C19-R4")
+    _c16.token_len_rule(ctx, "C19-R5")
     # ---------------------------------------------------------------- R1 census (reuse C01-R4 evaluation)
     sub = type(ctx)(ctx.prop, P, ctx.tier, ctx.config)
     c01.run(sub)
